@@ -307,8 +307,21 @@ func TestC09Binary(t *testing.T) {
 		}
 		n := rapid.IntRange(2, 7).Draw(rt, "steps")
 		for k := 0; k < n; k++ {
-			op := rapid.SampledFrom([]string{"connect", "connect", "end", "end", "probe"}).Draw(rt, "op")
+			op := rapid.SampledFrom([]string{"connect", "connect", "end", "end", "probe", "httpConnect"}).Draw(rt, "op")
 			switch op {
+			case "httpConnect":
+				// a full node posts its vipnode_connect to the plain HTTP endpoint (a script, a foreign agent): HTTP has no
+				// connection the pool could call back on, so whatever the reply, the registry must be what it was
+				h := rapid.IntRange(0, nHosts-1).Draw(rt, "host")
+				id := nodeIdent(h)
+				req := pool.ConnectRequest{VipnodeVersion: "verif", NodeInfo: ethnode.UserAgent{Version: "Geth/verif", Kind: ethnode.Geth, IsFullNode: true, Network: 1}}
+				nn := time.Now().UnixNano()
+				var resp pool.ConnectResponse
+				ctx, cancel := context.WithTimeout(ctxAll, 10*time.Second)
+				err := httpClient(p.addr).Call(ctx, &resp, "vipnode_connect", mustSign(id.key, "vipnode_connect", id.nodeID, nn, req), id.nodeID, nn, req)
+				cancel()
+				classes["http-connect"] = true
+				hist = append(hist, fmt.Sprintf("host %s sends vipnode_connect by plain HTTP POST -> err=%v", id.name, err))
 			case "connect":
 				h := rapid.IntRange(0, nHosts-1).Draw(rt, "host")
 				connSeq++
